@@ -91,7 +91,7 @@ example : isSame false .cond exNe2 .cond exNot = false := by decide
 /-! ### isOppositeCond -/
 
 /-- `isOppositeCond(isNot = false, …)` is sound: the two conditions are never both true. -/
-theorem opposite_sound (S : Sem) (cpp : Bool) (c1 c2 : Ctx) (e1 e2 : Expr) (hz : S.lval ['0'] = 0)
+theorem opposite_sound_partial (S : Sem) (cpp : Bool) (c1 c2 : Ctx) (e1 e2 : Expr) (hz : S.lval ['0'] = 0)
     (h : isOpp cpp false c1 e1 c2 e2 = true)
     (a1 : annOK S e1 = true) (a2 : annOK S e2 = true)
     (m1 : cmpSafe S e1 = true) (m2 : cmpSafe S e2 = true) :
@@ -128,19 +128,21 @@ theorem opposite_sound_counterexample :
     (fun _ => -1) 1 1 (by decide) (by decide)
   simp at this
 
-/-! ### multiCondition2: the verdict at the inner condition, given the modification scan -/
+/-! ### multiCondition2: the verdict at the inner condition, GIVEN that nothing wrote a variable of the outer condition
+in between.  The code's modification scan (`isExpressionChangedAt`, `findExpressionChanged`) that is meant to establish
+this is outside the model; these theorems only cover the step from "unmodified" to the verdict. -/
 
 /-- multiCondition2, inner condition: when `isOppositeCond(false, outer, inner)` holds, the outer condition was true
     and nothing between the two conditions wrote a variable of the outer condition (`ρ'` = the environment at the inner
     condition), the inner condition is false — "opposite inner condition leads to a dead code block". -/
-theorem multiCondition_opposite_sound (S : Sem) (cpp : Bool) (c1 c2 : Ctx) (outer inner : Expr) (hz : S.lval ['0'] = 0)
+theorem multiCondition_opposite_given_unmodified_partial (S : Sem) (cpp : Bool) (c1 c2 : Ctx) (outer inner : Expr) (hz : S.lval ['0'] = 0)
     (h : isOpp cpp false c1 outer c2 inner = true)
     (a1 : annOK S outer = true) (a2 : annOK S inner = true)
     (m1 : cmpSafe S outer = true) (m2 : cmpSafe S inner = true)
     (ρ ρ' : Env) (hw : ∀ x ∈ outer.vars, ρ' x = ρ x) (v1 v2 : Int)
     (h1 : eval S ρ outer = some v1) (ht : v1 ≠ 0) (h2 : eval S ρ' inner = some v2) : v2 = 0 := by
   have h1' : eval S ρ' outer = some v1 := by rw [eval_agree S ρ ρ' outer hw, h1]
-  have := opposite_sound S cpp c1 c2 outer inner hz h a1 a2 m1 m2 ρ' v1 v2 h1' h2
+  have := opposite_sound_partial S cpp c1 c2 outer inner hz h a1 a2 m1 m2 ρ' v1 v2 h1' h2
   by_cases hv : v2 = 0
   · exact hv
   · exact absurd ⟨ht, hv⟩ this
@@ -148,7 +150,7 @@ theorem multiCondition_opposite_sound (S : Sem) (cpp : Bool) (c1 c2 : Ctx) (oute
 /-- multiCondition2, identical inner condition / identical condition after early exit: when `isSameExpression(outer,
     inner)` holds and no variable of the outer condition was written in between, the inner condition has the truth value
     the outer one had (inside the `if`: true, after `if (outer) return;`: false). -/
-theorem multiCondition_same_sound (S : Sem) (cpp : Bool) (c1 c2 : Ctx) (outer inner : Expr)
+theorem multiCondition_same_given_unmodified (S : Sem) (cpp : Bool) (c1 c2 : Ctx) (outer inner : Expr)
     (h : isSame cpp c1 outer c2 inner = true)
     (a1 : annOK S outer = true) (a2 : annOK S inner = true)
     (ρ ρ' : Env) (hw : ∀ x ∈ outer.vars, ρ' x = ρ x) (v1 v2 : Int)
@@ -171,12 +173,12 @@ theorem outOfTypeRange_interval_sound (tvt : VT) (vvt : Option VT) (lo hi : Int)
 
 /-- "Comparing expression of type T against value k. Condition is always b" is true of every evaluation of the
     comparison, when the comparison is exact (`cmpSafe`). -/
-theorem outOfTypeRange_sound (S : Sem) (a : Ann) (op : BinOp) (l r : Expr) (b : Bool)
+theorem outOfTypeRange_sound_partial (S : Sem) (a : Ann) (op : BinOp) (l r : Expr) (b : Bool)
     (hc : op.isCmp = true) (g : annOK S (.bin a op l r) = true) (hs : cmpSafe S (.bin a op l r) = true)
     (hvl : vtOK S l = true) (hvr : vtOK S r = true)
     (h : outOfRange op 0 l r = some b ∨ outOfRange op 1 r l = some b) :
     ∀ ρ v, eval S ρ (.bin a op l r) = some v → v = b2i b :=
-  fun _ _ he => outOfRange_sound hc g hs hvl hvr h he
+  fun _ _ he => outOfRange_sound hc (annOK_bin g).1 (annOK_bin g).2 hs hvl hvr h he
 
 /-- hypotheses satisfiable with a verdict: `a < 5000000000L`-like is covered; here `(a < b) != 2` (bool against 2) -/
 example : outOfRange .ne 1 (.lit (litAnn 5 vtInt 2) "2".toList) exLt = some true ∧ annOK exS exNe2 = true ∧
@@ -210,14 +212,14 @@ theorem bitor_compare_table_sound (op : BinOp) (n1 n2 : Int) (b : Bool)
 
 /-- "Expression '(X & n1) op n2' is always b" is true of every evaluation of `(x & n1) op r` / `(n1 & x) op r` when
     the Known value n2 is on the right and the comparison is exact. -/
-theorem bitand_compare_sound (S : Sem) (a a' an : Ann) (op : BinOp) (x l r : Expr) (sp : List Char) (n1 n2 : Int)
+theorem bitand_compare_sound_partial (S : Sem) (a a' an : Ann) (op : BinOp) (x l r : Expr) (sp : List Char) (n1 n2 : Int)
     (uns b : Bool)
     (hl : l = .bin a' .band x (.lit an sp) ∨ l = .bin a' .band (.lit an sp) x)
     (hc : op.isCmp = true) (g : annOK S (.bin a op l r) = true) (hs : cmpSafe S (.bin a op l r) = true)
     (hk : r.ann.known = some n2) (hn2 : 0 ≤ n2) (hnum : an.num = some n1)
     (hv : bitCmpVerdict .band op uns n1 n2 = some b) :
     ∀ ρ v, eval S ρ (.bin a op l r) = some v → v = b2i b :=
-  fun _ _ he => bitand_cmp_sound hl hc g hs hk hn2 hnum hv he
+  fun _ _ he => bitand_cmp_sound hl hc (annOK_bin g).1 (annOK_bin g).2 hs hk hn2 hnum hv he
 
 /-- `(a & 1) == 2`-like verdict available under the hypotheses: `(a & 1) > 1` is always false -/
 example : bitCmpVerdict .band .gt false 1 1 = some false ∧
@@ -227,14 +229,155 @@ example : bitCmpVerdict .band .gt false 1 1 = some false ∧
       (.lit (litAnn 6 vtInt 1) "1".toList)) = true := by decide
 
 /-- the same with the Known value on the left, `l op (x & n1)`: the verdict is the one of the comparator turned around -/
-theorem bitand_compare_sound_left (S : Sem) (a a' an : Ann) (op : BinOp) (x l r : Expr) (sp : List Char) (n1 n2 : Int)
+theorem bitand_compare_sound_left_partial (S : Sem) (a a' an : Ann) (op : BinOp) (x l r : Expr) (sp : List Char) (n1 n2 : Int)
     (uns b : Bool)
     (hr : r = .bin a' .band x (.lit an sp) ∨ r = .bin a' .band (.lit an sp) x)
     (hc : op.isCmp = true) (g : annOK S (.bin a op l r) = true) (hs : cmpSafe S (.bin a op l r) = true)
     (hk : l.ann.known = some n2) (hn2 : 0 ≤ n2) (hnum : an.num = some n1)
     (hv : bitCmpVerdict .band (flipOp op) uns n1 n2 = some b) :
     ∀ ρ v, eval S ρ (.bin a op l r) = some v → v = b2i b :=
-  fun _ _ he => bitand_cmp_sound_left hr hc g hs hk hn2 hnum hv he
+  fun _ _ he => bitand_cmp_sound_left hr hc (annOK_bin g).1 (annOK_bin g).2 hs hk hn2 hnum hv he
+
+/-- "Expression '(X | n1) op n2' is always b" is true of every evaluation of `(x | n1) op r` when the first operand `x` of
+    the `|` has an unsigned value type, the Known value n2 is on the right and the comparison is exact. -/
+theorem bitor_compare_sound_partial (S : Sem) (a a' an : Ann) (op : BinOp) (x r : Expr) (sp : List Char) (n1 n2 : Int) (b : Bool)
+    (hc : op.isCmp = true) (g : annOK S (.bin a op (.bin a' .bor x (.lit an sp)) r) = true)
+    (hs : cmpSafe S (.bin a op (.bin a' .bor x (.lit an sp)) r) = true)
+    (hvx : vtOK S x = true) (hu : unsFlag x = true)
+    (hk : r.ann.known = some n2) (hn2 : 0 ≤ n2) (hnum : an.num = some n1)
+    (hv : bitCmpVerdict .bor op true n1 n2 = some b) :
+    ∀ ρ v, eval S ρ (.bin a op (.bin a' .bor x (.lit an sp)) r) = some v → v = b2i b :=
+  fun _ _ he => bitor_cmp_sound hc (annOK_bin g).1 (annOK_bin g).2 hs (fun _ hX => unsigned_vt_nonneg hvx hu hX) hk hn2 hnum hv he
+
+/-- the same with the Known value on the left, `l op (x | n1)` -/
+theorem bitor_compare_sound_left_partial (S : Sem) (a a' an : Ann) (op : BinOp) (x l : Expr) (sp : List Char) (n1 n2 : Int) (b : Bool)
+    (hc : op.isCmp = true) (g : annOK S (.bin a op l (.bin a' .bor x (.lit an sp))) = true)
+    (hs : cmpSafe S (.bin a op l (.bin a' .bor x (.lit an sp))) = true)
+    (hvx : vtOK S x = true) (hu : unsFlag x = true)
+    (hk : l.ann.known = some n2) (hn2 : 0 ≤ n2) (hnum : an.num = some n1)
+    (hv : bitCmpVerdict .bor (flipOp op) true n1 n2 = some b) :
+    ∀ ρ v, eval S ρ (.bin a op l (.bin a' .bor x (.lit an sp))) = some v → v = b2i b :=
+  fun _ _ he => bitor_cmp_sound_left hc (annOK_bin g).1 (annOK_bin g).2 hs (fun _ hX => unsigned_vt_nonneg hvx hu hX) hk hn2 hnum hv he
+
+/-- `unsigned c`, `long d` (variables 3 and 4) and the number token 7 -/
+def exS2 : Sem :=
+  { vty := fun x => if x = 3 then tUInt else if x = 4 then ⟨.long, true⟩ else tInt
+    lty := fun _ => tInt
+    lval := fun sp => if sp = "7".toList then 7 else 0 }
+def exC : Expr := .var (varAnn 1 vtUInt) 3
+def exD : Expr := .var (varAnn 2 ⟨.signed, 4⟩) 4
+def exL7 (col : Nat) : Expr := .lit (litAnn col vtInt 7) "7".toList
+/-- `(c | 7) >= 7` -/
+def exOrGe : Expr := .bin (opAnn 9 vtBool) .ge (.bin (opAnn 4 vtUInt) .bor exC (exL7 5)) (exL7 10)
+/-- `((c | 7) | d) >= 7` -/
+def exOrOrGe : Expr := .bin (opAnn 9 vtBool) .ge (.bin (opAnn 7 ⟨.signed, 4⟩) .bor (.bin (opAnn 4 vtUInt) .bor exC (exL7 5)) exD) (exL7 10)
+
+/-- hypotheses of `bitor_compare_sound_partial` satisfiable with a verdict: `(c | 7) >= 7` (unsigned c) is always true -/
+example : bitCmpVerdict .bor .ge true 7 7 = some true ∧ annOK exS2 exOrGe = true ∧ cmpSafe exS2 exOrGe = true ∧
+    vtOK exS2 exC = true ∧ unsFlag exC = true := by decide
+
+/-- Finding F03d: outside the covered shape the code's rule is unsound — for `((c | 7) | d) >= 7` (unsigned c, long d)
+    `comparison()` looks at the sign of the first operand `(c | 7)` of the top `|` only and reports "always true"; for
+    d = -1 the comparison is false.  All side conditions (`annOK`, `cmpSafe`, `vtAll`) hold. -/
+theorem bitor_compare_counterexample :
+    ∃ f, bitCmpFindings .ge (.bin (opAnn 7 ⟨.signed, 4⟩) .bor (.bin (opAnn 4 vtUInt) .bor exC (exL7 5)) exD) (exL7 10) = [f] ∧
+      f.verdict = true ∧ annOK exS2 exOrOrGe = true ∧ cmpSafe exS2 exOrOrGe = true ∧ vtAll exS2 exOrOrGe = true ∧
+      eval exS2 (fun x => if x = 4 then -1 else 0) exOrOrGe = some 0 :=
+  ⟨_, rfl, by decide, by decide, by decide, by decide, by decide⟩
+
+/-! ### from the findings the driver prints to the verdict theorems -/
+
+/-- every finding of `findings` (what `drv_c03` prints and the harness output is compared with) belongs to one
+    comparison token of one condition and was produced by one of the two checks -/
+theorem findings_mem (conds : List Expr) (f : Finding) (h : f ∈ findings conds) :
+    ∃ c ∈ conds, ∃ op l r, (op, l, r) ∈ cmpNodes c ∧ (f ∈ bitCmpFindings op l r ∨ rangeFinding op l r = some f) := by
+  simp only [findings, List.mem_append, List.mem_flatMap, List.mem_filterMap] at h
+  rcases h with ⟨⟨op, l, r⟩, ⟨c, hc, hn⟩, hf⟩ | ⟨⟨op, l, r⟩, ⟨c, hc, hn⟩, hf⟩
+  · exact ⟨c, hc, op, l, r, hn, Or.inl hf⟩
+  · exact ⟨c, hc, op, l, r, hn, Or.inr hf⟩
+
+theorem msg_split (A B w : String) : ∃ pre : String, A ++ (B ++ "always ") ++ w ++ "." = pre ++ "always " ++ w ++ "." :=
+  ⟨A ++ B, by simp [String.append_assoc]⟩
+
+/-- the message text says what `verdict` says: "… always true." / "… always false." -/
+theorem finding_msg_verdict (op : BinOp) (l r : Expr) (f : Finding)
+    (h : f ∈ bitCmpFindings op l r ∨ rangeFinding op l r = some f) :
+    ∃ pre : String, f.msg = pre ++ "always " ++ boolWord f.verdict ++ "." := by
+  rcases h with h | h
+  · have aux : ∀ o e1 e2, f ∈ bitCmpFindingsAux o e1 e2 → ∃ pre : String, f.msg = pre ++ "always " ++ boolWord f.verdict ++ "." := by
+      intro o e1 e2 hf
+      unfold bitCmpFindingsAux at hf
+      split at hf
+      · simp at hf
+      · split at hf
+        · simp at hf
+        · split at hf
+          · split at hf
+            · simp only [List.mem_filterMap] at hf
+              obtain ⟨n1, _, hm⟩ := hf
+              split at hm
+              · simp only [Option.some.injEq] at hm
+                subst hm
+                show ∃ pre : String, _ ++ "' is always " ++ _ ++ "." = pre ++ "always " ++ _ ++ "."
+                rw [show ("' is always " : String) = "' is " ++ "always " from by decide]
+                exact msg_split _ _ _
+              · simp at hm
+            · simp at hf
+          · simp at hf
+    unfold bitCmpFindings at h
+    split at h <;> exact aux _ _ _ h
+  · unfold rangeFinding at h
+    simp only at h
+    split at h
+    · simp only [Option.some.injEq] at h
+      subst h
+      show ∃ pre : String, _ ++ ". Condition is always " ++ _ ++ "." = pre ++ "always " ++ _ ++ "."
+      rw [show (". Condition is always " : String) = ". Condition is " ++ "always " from by decide]
+      exact msg_split _ _ _
+    · split at h
+      · simp only [Option.some.injEq] at h
+        subst h
+        show ∃ pre : String, _ ++ ". Condition is always " ++ _ ++ "." = pre ++ "always " ++ _ ++ "."
+        rw [show (". Condition is always " : String) = ". Condition is " ++ "always " from by decide]
+        exact msg_split _ _ _
+      · simp at h
+
+/-- a compareValueOutOfTypeRangeError finding of a comparison token anywhere below a condition `c` is true of every
+    evaluation of that comparison, when `c` satisfies the side conditions. -/
+theorem range_finding_sound_partial (S : Sem) (c : Expr) (op : BinOp) (l r : Expr) (f : Finding)
+    (hm : (op, l, r) ∈ cmpNodes c) (ga : annOK S c = true) (gs : cmpSafe S c = true) (gv : vtAll S c = true)
+    (hf : rangeFinding op l r = some f) :
+    ∀ a ρ v, eval S ρ (.bin a op l r) = some v → v = b2i f.verdict := by
+  intro a ρ v he
+  obtain ⟨hc, gl, gr, hs, vl, vr⟩ := cmpNodes_sub c hm ga gs gv
+  exact rangeFinding_sound hf hc gl gr (hs a) (vtAll_root vl) (vtAll_root vr) he
+
+/-- a comparisonError finding of a comparison token below `c` is true of every evaluation of that comparison, when `c`
+    satisfies the side conditions and the bit test (the operand without the Known value) is one of the covered shapes
+    `x & n`, `n & x`, `x | n` with unsigned x (`bitShape`) — in both operand orders of the comparison. -/
+theorem comparison_finding_sound_partial (S : Sem) (c : Expr) (op : BinOp) (l r : Expr) (f : Finding)
+    (hm : (op, l, r) ∈ cmpNodes c) (ga : annOK S c = true) (gs : cmpSafe S c = true) (gv : vtAll S c = true)
+    (hf : f ∈ bitCmpFindings op l r)
+    (hsh : bitShape (if l.ann.known.isSome then r else l) = true) :
+    ∀ a ρ v, eval S ρ (.bin a op l r) = some v → v = b2i f.verdict := by
+  intro a ρ v he
+  obtain ⟨hc, gl, gr, hs, vl, vr⟩ := cmpNodes_sub c hm ga gs gv
+  unfold bitCmpFindings at hf
+  split at hf
+  · rename_i hk
+    rw [if_pos hk] at hsh
+    exact (aux_shape_sound (ρ := ρ) hsh hf gr gl vr).2 a op v rfl hc (hs a) he
+  · rename_i hk
+    rw [if_neg hk] at hsh
+    exact (aux_shape_sound (ρ := ρ) hsh hf gl gr vl).1 a v hc (hs a) he
+
+/-- the composing theorems apply to real output: `(c | 7) >= 7` is a comparison token of itself, its finding is the one
+    printed, and all hypotheses hold -/
+example : (BinOp.ge, .bin (opAnn 4 vtUInt) .bor exC (exL7 5), exL7 10) ∈ cmpNodes exOrGe := by
+  simp [cmpNodes, exOrGe, exC, exL7, BinOp.isCmp]
+example : (findings [exOrGe]).map (·.msg) = ["Expression '(X | 0x7) >= 0x7' is always true."] ∧
+    annOK exS2 exOrGe = true ∧ cmpSafe exS2 exOrGe = true ∧ vtAll exS2 exOrGe = true ∧
+    bitShape (.bin (opAnn 4 vtUInt) .bor exC (exL7 5)) = true := by decide
 
 /-- `3 < (a & 1)`: the finding is now the one of `(a & 1) > 3`, "always false", which is what the expression is -/
 example : (bitCmpFindings .lt (.lit (litAnn 1 vtInt 3) "3".toList)
